@@ -544,9 +544,13 @@ func (hm *HandshakeManager) unlockedDeleteHostInfo(hostinfo *HostInfo) {
 		hm.vpnIps = map[netip.Addr]*HandshakeHostInfo{}
 	}
 
-	delete(hm.indexes, hostinfo.localIndexId)
-	if len(hm.indexes) == 0 {
-		hm.indexes = map[uint32]*HandshakeHostInfo{}
+	// Only release the index if it is still ours. handleRecvError calls this for a hostinfo it has just
+	// removed from the main hostmap, by then the index may belong to a new pending handshake
+	if cur, ok := hm.indexes[hostinfo.localIndexId]; ok && cur.hostinfo == hostinfo {
+		delete(hm.indexes, hostinfo.localIndexId)
+		if len(hm.indexes) == 0 {
+			hm.indexes = map[uint32]*HandshakeHostInfo{}
+		}
 	}
 
 	if hm.l.Enabled(context.Background(), slog.LevelDebug) {
